@@ -457,7 +457,8 @@ fn loop_shapes(b: &[Stmt], x: usize, out: &mut BTreeSet<&'static str>) {
                 else if assigns(bb, x) && own_break(bb) { out.insert("repeat-break-after-body-assigned-probed-var"); }
                 loop_shapes(bb, x, out);
             }
-            Stmt::For(a, z, bb) => { if z >= a && assigns(bb, x) && tests(bb, x) { out.insert("loop-body-tests-and-assigns-probed-var"); } loop_shapes(bb, x, out); }
+            // a numeric for whose literal bounds show that it is not entered never runs its body: nothing inside matters
+            Stmt::For(a, z, bb) => { if z >= a { if assigns(bb, x) && tests(bb, x) { out.insert("loop-body-tests-and-assigns-probed-var"); } loop_shapes(bb, x, out); } }
             _ => {}
         }
     }
